@@ -469,9 +469,6 @@ func explore(r *ev.Run, c config, outcomes map[string]int, workers int) stats {
 				}
 			}
 			if res.viol != nil {
-				if os.Getenv("C16_ALLVIOL") != "" { // development aid: every violating transition
-					fmt.Fprintf(os.Stderr, "VIOL %s|%d|%t|%s|%s\n", kindNames[c.kind], c.startSlot, c.early, res.viol.clause, encodePath(res.path))
-				}
 				report(r, c, res.path, res.viol)
 				continue
 			}
